@@ -5,3 +5,11 @@ def regression_selector_default_quantitative(w):
     """D6: RegressionSelector with its DEFAULT quantitative measure (distance_measure = 1 - r ranked in decreasing order, 0 treated as undefined).
     Only witnesses that involve the quantitative features of a RegressionSelector with default measures belong to the finding."""
     return isinstance(w, dict) and w.get('selector') == 'RegressionSelector' and w.get('default_measures') is True and w.get('dtype', 'float') == 'float'
+
+
+def regression_selector_qualitative_feature_with_missing_values(w):
+    """D25: kruskal_measure makes an empty group for the missing values of the grouping variable; with RegressionSelector (reversed measure) a qualitative
+    feature that holds missing values gets an undefined measure and is left out.  Only witnesses in which the returned list is EXACTLY what the
+    recomputation gives when those features are treated as undefined belong to the finding."""
+    return (isinstance(w, dict) and w.get('selector') == 'RegressionSelector' and w.get('dtype') == 'str' and w.get('default_measures') is True
+            and w.get('returned') is not None and w.get('returned') == w.get('expected_if_features_with_missing_values_are_undefined'))
